@@ -1466,7 +1466,8 @@ def merge_nested_comprehensions(source: str) -> str:
 
                 tf = RenameTransformer(target_name_inner, comprehension.target.id)
 
-                new_generators.extend(tf.visit(comprehension.iter).generators)
+                # The transformer works in place, and comprehension belongs to the cached tree
+                new_generators.extend(tf.visit(copy.deepcopy(comprehension.iter)).generators)
 
             else:
                 new_generators.append(comprehension)
